@@ -75,7 +75,8 @@ fn gen_model(r: &mut Rng, kind: &str) -> LinearModel {
         let c: Vec<f64> = (0..nv).map(|_| *r.pick(&coefs)).collect();
         let cmp = match r.below(4) { 0 | 1 => Comparison::LessOrEqual, 2 => Comparison::GreaterOrEqual, _ => Comparison::Equal };
         let rhs = *r.pick(&[0.0, 1.0, 2.0, -1.0, 4.0, -2.0, 3.0, 6.0, 5.0, -4.0]);
-        if kind == "shadow" || r.chance(1, 3) { m.add_named_constraint(c, cmp, rhs, &format!("r{j}")); } else { m.add_constraint(c, cmp, rhs); }
+        if (kind == "shadow" && !r.chance(1, 4)) || (kind != "shadow" && r.chance(1, 3)) {   // shadow models: unnamed rows interspersed with named ones
+            m.add_named_constraint(c, cmp, rhs, &format!("r{j}")); } else { m.add_constraint(c, cmp, rhs); }
     }
     let obj: Vec<f64> = (0..nv).map(|_| *r.pick(&coefs)).collect();
     let dir = match r.below(if kind == "int" || kind == "mixed" { 7 } else { 6 }) { 0 | 1 | 2 => OptimizationType::Min, 3 | 4 | 5 => OptimizationType::Max, _ => OptimizationType::Satisfy };
